@@ -1,0 +1,15 @@
+//go:build verif
+
+package fullrt
+
+import "sync/atomic"
+
+// verifYieldFn, when set by a verification harness, is called at named points
+// of the crawl-result swap so that the harness can pause the swap there.
+var verifYieldFn atomic.Pointer[func(point string)]
+
+func verifYield(point string) {
+	if f := verifYieldFn.Load(); f != nil {
+		(*f)(point)
+	}
+}
